@@ -208,14 +208,26 @@ func (g *Gen) Setup() map[string]string {
 		switch route := g.R.IntN(10); {
 		case route < 4: // through the environment: the builder default is another value
 			reg.Default = other
-			varName := reg.Name
-			switch g.R.IntN(3) {
-			case 0:
-				varName = strings.ToUpper(reg.Name)
-			case 1:
-				varName = strings.ToLower(reg.Name)
+			// lookupEnv tries the name as given, then upper-case, then lower-case: set a non-empty
+			// subset of the three spellings to different values; the first present one must win
+			spellings := []string{reg.Name, strings.ToUpper(reg.Name), strings.ToLower(reg.Name)}
+			vals := g.R.Perm(len(names))
+			some := false
+			for i := len(spellings) - 1; i >= 0; i-- { // lowest priority first: a coinciding spelling is overwritten
+				if g.R.IntN(2) == 0 || (i == 0 && !some) {
+					env[spellings[i]] = Spell(g.R, names[vals[i%len(vals)]])
+					some = true
+				}
 			}
-			env[varName] = Spell(g.R, names[sel])
+			varName := ""
+			for _, sp := range spellings {
+				if _, ok := env[sp]; ok {
+					varName = sp
+					break
+				}
+			}
+			sel, _ = Enums[e].Parse(env[varName])
+			reg.Default = (sel + 1 + g.R.IntN(len(names)-1)) % len(names)
 			if g.OOD && g.R.IntN(4) == 0 {
 				env[varName] = []string{"", "nope", names[sel] + "x", " " + names[sel]}[g.R.IntN(4)]
 				// whatever ParseGeneric makes of it decides the selection
